@@ -159,6 +159,9 @@ class HTMLParser(object):
 
         self.framesetOK = True
 
+        # pending table text of a parse that was aborted must not reach the next document
+        self.phases["inTableText"].characterTokens = []
+
     @property
     def documentEncoding(self):
         """Name of the character encoding that was used to decode the input stream, or
